@@ -343,14 +343,25 @@ pub(crate) fn in_directive() -> bool {
 
 pub(crate) fn begin_directive() {
     IN_DIRECTIVE.with(|x| x.borrow_mut().push(()));
+    #[cfg(sv_parser_verif)]
+    crate::verif::emit("begin_directive", &[verif_directive_depth() as i64], &[]);
 }
 
 pub(crate) fn end_directive() {
     IN_DIRECTIVE.with(|x| x.borrow_mut().pop());
+    #[cfg(sv_parser_verif)]
+    crate::verif::emit("end_directive", &[verif_directive_depth() as i64], &[]);
 }
 
 pub(crate) fn clear_directive() {
     IN_DIRECTIVE.with(|x| x.borrow_mut().clear());
+    #[cfg(sv_parser_verif)]
+    crate::verif::emit("clear_directive", &[], &[]);
+}
+
+#[cfg(sv_parser_verif)]
+pub(crate) fn verif_directive_depth() -> usize {
+    IN_DIRECTIVE.with(|x| x.borrow().len())
 }
 
 // -----------------------------------------------------------------------------
@@ -389,12 +400,16 @@ pub(crate) fn begin_keywords(version: &str) {
         "directive" => current_version.borrow_mut().push(Version::Directive),
         _ => (),
     });
+    #[cfg(sv_parser_verif)]
+    crate::verif::emit("begin_keywords", &[verif_version_stack().len() as i64], &[version]);
 }
 
 pub(crate) fn end_keywords() {
     CURRENT_VERSION.with(|current_version| {
         current_version.borrow_mut().pop();
     });
+    #[cfg(sv_parser_verif)]
+    crate::verif::emit("end_keywords", &[verif_version_stack().len() as i64], &[]);
 }
 
 pub(crate) fn current_version() -> Option<Version> {
@@ -408,6 +423,13 @@ pub(crate) fn clear_version() {
     CURRENT_VERSION.with(|current_version| {
         current_version.borrow_mut().clear();
     });
+    #[cfg(sv_parser_verif)]
+    crate::verif::emit("clear_version", &[], &[]);
+}
+
+#[cfg(sv_parser_verif)]
+pub(crate) fn verif_version_stack() -> Vec<String> {
+    CURRENT_VERSION.with(|x| x.borrow().iter().map(|v| format!("{:?}", v)).collect())
 }
 
 // -----------------------------------------------------------------------------
